@@ -21,8 +21,8 @@ package main
 //	T  i            Tick()
 //	R  i            crash + restart: the RawNode is rebuilt from its MemoryStorage
 //	K  i k          compaction of the log up to (model) index k; SR i j: ReportSnapshot(j, failure)
-//	CC i code       (simcc only) ProposeConfChange: 100+x add voter x, 200+x remove voter x,
-//	                1000+10a+b add a and remove b through an auto-leave joint configuration
+//	CC i code       (simcc only) ProposeConfChange: 100+x add voter x, 110+x remove voter x,
+//	                130+10a+b add a and remove b through an auto-leave joint configuration
 //	D  i <msg>      Step(msg) of an in-flight message addressed to i (removed from the network)
 //	DD i <msg>      the same, but the message stays in flight (duplication)
 //	FP/FPD i from p Step of a forwarded MsgProp (FPD: it stays in flight)
@@ -38,7 +38,7 @@ package main
 //	N <n> <electionTick> <rngseed> <MaxSizePerMsg>
 //	EV <kind> <node> <args>
 //	OUT <msg>                     (0 or more: what the node handed to the network)
-//	ST <node> <term> <vote> <commit> <role F|C|L> <lead> <nlog> (<term> <payload>)*
+//	ST <node> <term> <vote> <commit> <role F|C|L> <lead> <nlog> (<term> <payload>)* [CFG <nin> ids <nout> ids <autoleave>]
 //
 //	<msg> = <type> <from> <to> <term> <logterm> <index> <commit> <reject 0|1> <nents> (<term> <payload>)*
 //	type: V MsgVote, W MsgVoteResp, A MsgApp, B MsgAppResp, H MsgHeartbeat, I MsgHeartbeatResp,
@@ -51,6 +51,7 @@ import (
 	"fmt"
 	"os"
 	"path/filepath"
+	"sort"
 	"strconv"
 	"strings"
 
@@ -74,6 +75,13 @@ type simNode struct {
 	shadow []pb.Entry
 	// the log prefix carried (as ghost information) by the MsgSnap being stepped
 	pendingGhost []pb.Entry
+	// AutoLeave of the node's configuration, as returned by the last ApplyConfChange
+	// (Status().Config is a Clone() that does not carry it)
+	autoLeave bool
+	// ConfState after each applied conf-change entry (real index -> state), on top of csBase, the
+	// ConfState of the storage's snapshot: a compaction at index i must record the ConfState as of i
+	csAt   map[uint64]pb.ConfState
+	csBase pb.ConfState
 }
 
 // a message on the network; ghost = for MsgSnap, the sender's log up to the snapshot index
@@ -87,6 +95,7 @@ type cluster struct {
 	electionTick int
 	maxSize      uint64
 	ccVoters     int // > 0: membership-change schedule; the initial voters are 1..ccVoters
+	snapHeavy    bool // schedule numbers 3000000..3999999: frequent compaction and duplicated deliveries
 	nodes        []*simNode
 	flight       []flightMsg
 	w            *bufio.Writer
@@ -108,21 +117,65 @@ func monus1(x uint64) uint64 {
 	return x - 1
 }
 
+// payloadOf renders an entry's content as the model's payload id: 0 = empty, 1..97 = a proposal,
+// conf changes: 100+x add voter x, 110+x remove voter x, 120 leave joint, 130+10a+b add a / remove b
+// through an auto-leave joint configuration (999 = a conf change the model has no code for).
 func payloadOf(e pb.Entry) uint64 {
 	switch e.Type {
 	case pb.EntryConfChange:
-		return 98
+		var cc pb.ConfChange
+		if err := cc.Unmarshal(e.Data); err != nil {
+			return 999
+		}
+		return ccCode(cc.AsV2())
 	case pb.EntryConfChangeV2:
-		return 99
+		var cc pb.ConfChangeV2
+		if err := cc.Unmarshal(e.Data); err != nil {
+			return 999
+		}
+		return ccCode(cc)
 	}
 	if len(e.Data) == 0 {
 		return 0
 	}
 	v, err := strconv.ParseUint(string(e.Data), 10, 64)
 	if err != nil {
-		return 999999
+		return 999
 	}
 	return v
+}
+
+func ccCode(cc pb.ConfChangeV2) uint64 {
+	switch {
+	case cc.LeaveJoint():
+		return 120
+	case len(cc.Changes) == 1 && cc.Transition == pb.ConfChangeTransitionAuto && cc.Changes[0].NodeID <= 9:
+		switch cc.Changes[0].Type {
+		case pb.ConfChangeAddNode:
+			return 100 + cc.Changes[0].NodeID
+		case pb.ConfChangeRemoveNode:
+			return 110 + cc.Changes[0].NodeID
+		}
+	case len(cc.Changes) == 2 && cc.Transition == pb.ConfChangeTransitionAuto &&
+		cc.Changes[0].Type == pb.ConfChangeAddNode && cc.Changes[1].Type == pb.ConfChangeRemoveNode &&
+		cc.Changes[0].NodeID <= 9 && cc.Changes[1].NodeID <= 9:
+		return 130 + 10*cc.Changes[0].NodeID + cc.Changes[1].NodeID
+	}
+	return 999
+}
+
+func idsStr(m map[uint64]struct{}) string {
+	ids := make([]int, 0, len(m))
+	for id := range m {
+		ids = append(ids, int(id))
+	}
+	sort.Ints(ids)
+	var b strings.Builder
+	fmt.Fprintf(&b, "%d", len(ids))
+	for _, id := range ids {
+		fmt.Fprintf(&b, " %d", id)
+	}
+	return b.String()
 }
 
 func entsStr(es []pb.Entry) string {
@@ -155,7 +208,17 @@ func msgKey(fm flightMsg) string {
 	case pb.MsgHeartbeatResp:
 		return fmt.Sprintf("I %d %d %d 0 0 0 0 0", m.From, m.To, m.Term)
 	case pb.MsgSnap:
-		return fmt.Sprintf("S %d %d %d %d %d 0 0 %s", m.From, m.To, m.Term, m.Snapshot.Metadata.Term, monus1(m.Snapshot.Metadata.Index), entsStr(fm.ghost))
+		// the reject field is ghost for MsgSnap: 1 = the receiver is not in the snapshot's ConfState
+		cs := m.Snapshot.Metadata.ConfState
+		out := 1
+		for _, set := range [][]uint64{cs.Voters, cs.Learners, cs.VotersOutgoing} {
+			for _, id := range set {
+				if id == m.To {
+					out = 0
+				}
+			}
+		}
+		return fmt.Sprintf("S %d %d %d %d %d 0 %d %s", m.From, m.To, m.Term, m.Snapshot.Metadata.Term, monus1(m.Snapshot.Metadata.Index), out, entsStr(fm.ghost))
 	case pb.MsgProp:
 		p := uint64(0)
 		if len(m.Entries) > 0 {
@@ -195,7 +258,7 @@ func newCluster(n, electionTick int, rngseed uint64, maxSize uint64, ccVoters in
 		if err := st.ApplySnapshot(pb.Snapshot{Metadata: pb.SnapshotMetadata{Index: 1, Term: 0, ConfState: pb.ConfState{Voters: voters}}}); err != nil {
 			return nil, err
 		}
-		nd := &simNode{id: uint64(i + 1), st: st}
+		nd := &simNode{id: uint64(i + 1), st: st, csAt: map[uint64]pb.ConfState{}, csBase: pb.ConfState{Voters: voters}}
 		rn, err := raft.NewRawNode(c.config(nd))
 		if err != nil {
 			return nil, err
@@ -225,6 +288,9 @@ func (c *cluster) drain(nd *simNode) []pb.Message {
 				panic("harness: snapshot without its ghost prefix")
 			}
 			nd.shadow = append([]pb.Entry(nil), nd.pendingGhost[:k]...)
+			nd.csBase = rd.Snapshot.Metadata.ConfState
+			nd.csAt = map[uint64]pb.ConfState{}
+			nd.autoLeave = nd.csBase.AutoLeave
 		}
 		if len(rd.Entries) > 0 {
 			at := int(rd.Entries[0].Index) - 2 // position in shadow of the first new entry
@@ -249,13 +315,17 @@ func (c *cluster) drain(nd *simNode) []pb.Message {
 				if err := cc.Unmarshal(e.Data); err != nil {
 					panic(err)
 				}
-				nd.rn.ApplyConfChange(cc)
+				cs := nd.rn.ApplyConfChange(cc)
+				nd.autoLeave = cs.AutoLeave
+				nd.csAt[e.Index] = *cs
 			case pb.EntryConfChangeV2:
 				var cc pb.ConfChangeV2
 				if err := cc.Unmarshal(e.Data); err != nil {
 					panic(err)
 				}
-				nd.rn.ApplyConfChange(cc)
+				cs := nd.rn.ApplyConfChange(cc)
+				nd.autoLeave = cs.AutoLeave
+				nd.csAt[e.Index] = *cs
 			}
 		}
 		nd.rn.Advance(rd)
@@ -269,6 +339,7 @@ func (c *cluster) rebuild(nd *simNode) {
 		panic(err)
 	}
 	nd.rn = rn
+	nd.autoLeave = nd.csBase.AutoLeave // the storage's ConfState; later committed conf changes are re-applied by the Ready loop
 }
 
 func (c *cluster) writeState(nd *simNode) {
@@ -300,7 +371,17 @@ func (c *cluster) writeState(nd *simNode) {
 		}
 	}
 	es := nd.shadow
-	fmt.Fprintf(c.w, "ST %d %d %d %d %s %d %s\n", nd.id, bs.Term, bs.Vote, monus1(bs.Commit), role, bs.Lead, entsStr(es))
+	fmt.Fprintf(c.w, "ST %d %d %d %d %s %d %s", nd.id, bs.Term, bs.Vote, monus1(bs.Commit), role, bs.Lead, entsStr(es))
+	if c.ccVoters > 0 {
+		// the node's current configuration: incoming voters, outgoing voters, AutoLeave
+		cfg := nd.rn.Status().Config
+		auto := 0
+		if nd.autoLeave {
+			auto = 1
+		}
+		fmt.Fprintf(c.w, " CFG %s %s %d", idsStr(cfg.Voters[0]), idsStr(cfg.Voters[1]), auto)
+	}
+	fmt.Fprintln(c.w)
 }
 
 // one event: kind is C P T R D DD FP or the X-variants; m is the message for D/DD/FP.
@@ -341,29 +422,40 @@ func (c *cluster) exec(kind string, i int, payload int, m *flightMsg) (ok bool) 
 	case "R":
 		c.rebuild(nd)
 	case "K":
-		// compact the log up to model index payload (real index payload+1), which is applied
-		voters := make([]uint64, c.n)
-		for k := range voters {
-			voters[k] = uint64(k + 1)
+		// compact the log up to model index payload (real index payload+1), which is applied; the
+		// snapshot records the ConfState as of that index
+		idx := uint64(payload + 1)
+		cs := nd.csBase
+		best := uint64(0)
+		for k, v := range nd.csAt {
+			if k <= idx && k > best {
+				best, cs = k, v
+			}
 		}
-		if _, err := nd.st.CreateSnapshot(uint64(payload+1), &pb.ConfState{Voters: voters}, nil); err != nil {
+		if _, err := nd.st.CreateSnapshot(idx, &cs, nil); err != nil {
 			panic(err)
 		}
-		if err := nd.st.Compact(uint64(payload + 1)); err != nil {
+		if err := nd.st.Compact(idx); err != nil {
 			panic(err)
+		}
+		nd.csBase = cs
+		for k := range nd.csAt {
+			if k <= idx {
+				delete(nd.csAt, k)
+			}
 		}
 	case "SR":
 		nd.rn.ReportSnapshot(uint64(payload), raft.SnapshotFailure)
 	case "CC":
-		// 100+x: add voter x; 200+x: remove voter x; 1000+10a+b: add a and remove b through a
-		// joint configuration that is left automatically
+		// the model's payload codes: 100+x add voter x; 110+x remove voter x; 130+10a+b add a and
+		// remove b through a joint configuration that is left automatically
 		switch {
-		case payload >= 1000:
-			a, b := uint64((payload-1000)/10), uint64((payload-1000)%10)
+		case payload >= 130:
+			a, b := uint64((payload-130)/10), uint64((payload-130)%10)
 			_ = nd.rn.ProposeConfChange(pb.ConfChangeV2{Changes: []pb.ConfChangeSingle{
 				{Type: pb.ConfChangeAddNode, NodeID: a}, {Type: pb.ConfChangeRemoveNode, NodeID: b}}})
-		case payload >= 200:
-			_ = nd.rn.ProposeConfChange(pb.ConfChange{Type: pb.ConfChangeRemoveNode, NodeID: uint64(payload - 200)})
+		case payload >= 110:
+			_ = nd.rn.ProposeConfChange(pb.ConfChange{Type: pb.ConfChangeRemoveNode, NodeID: uint64(payload - 110)})
 		default:
 			_ = nd.rn.ProposeConfChange(pb.ConfChange{Type: pb.ConfChangeAddNode, NodeID: uint64(payload - 100)})
 		}
@@ -405,9 +497,14 @@ func (c *cluster) runRandom(r *rng, nevents int) {
 	p := profile{wDeliver: 50 + r.intn(40), wDup: r.intn(8), wDrop: r.intn(10), wTick: 4 + r.intn(12),
 		wPropose: 4 + r.intn(12), wCampaign: 1 + r.intn(6), wRestart: r.intn(5), wCrashMid: r.intn(4), wPartition: r.intn(3)}
 	if c.ccVoters > 0 {
-		// membership-change schedules: no compaction (a snapshot would need the ConfState as of
-		// its index), conf changes instead
+		// membership-change schedules: conf changes, and in half of them compaction as well
 		p.wConf = 2 + r.intn(8)
+		if r.chance(1, 2) {
+			p.wCompact = 1 + r.intn(6)
+		}
+	} else if c.snapHeavy {
+		p.wCompact = 6 + r.intn(6)
+		p.wDup += 6
 	} else if r.chance(1, 2) {
 		p.wCompact = 1 + r.intn(6)
 	}
@@ -515,9 +612,9 @@ func (c *cluster) runRandom(r *rng, nevents int) {
 			case 0, 1:
 				code = 100 + 1 + r.intn(c.n)
 			case 2, 3:
-				code = 200 + 2 + r.intn(c.n-1)
+				code = 110 + 2 + r.intn(c.n-1)
 			default:
-				code = 1000 + 10*(1+r.intn(c.n)) + 2 + r.intn(c.n-1)
+				code = 130 + 10*(1+r.intn(c.n)) + 2 + r.intn(c.n-1)
 			}
 			if c.n >= 2 {
 				ok = c.exec("CC", r.intn(c.n), code, nil)
@@ -598,6 +695,7 @@ func cmdSim(args []string) error {
 		if err != nil {
 			return err
 		}
+		c.snapHeavy = k >= 3000000 && k < 4000000
 		c.runRandom(r, nevents)
 		fmt.Fprintf(w, "END %d\n", k)
 	}
